@@ -40,6 +40,7 @@ type JScan struct {
 	ECSOff     int
 	ECS        []byte // entropy-coded segment(s), including RSTn markers if any
 	FFCount    int    // number of 0xFF bytes inside ECS
+	FillBytes  int    // 0xFF bytes directly in front of a marker (T.81 B.1.1.2 fill bytes)
 }
 
 func standalone(m byte) bool {
@@ -180,6 +181,7 @@ func WalkJPEG(d []byte, ls bool) (*JPEG, error) {
 						continue
 					}
 					if n == 0xFF { // fill byte
+						sc.FillBytes++
 						i++
 						continue
 					}
